@@ -427,6 +427,12 @@ func (s *Server) cmdEvalUnified(scriptIsSha bool, msg *Message) (res resp.Value,
 		err = errInvalidArgument(numkeysStr)
 		return
 	}
+	if numkeys > uint64(len(vs)) {
+		// fewer arguments follow than the number of keys announced; do not
+		// size the KEYS table from a number that nothing backs
+		err = errInvalidNumberOfArguments
+		return
+	}
 
 	luaState, err := s.luapool.Get()
 	if err != nil {
